@@ -78,7 +78,14 @@ RULE = ('A-group: power lists of 1-30 (quick) / 1-48 (thorough) assemblies '
         'with/without pressure-drop limit (binding, loose, infeasible), '
         'surrogate response off the table by a per-assembly factor and an '
         'energy loss so that dT_prev != dT_target; B: 7-position cores, 1-2 '
-        'types (second type grouped or not), 2-3 groups, 2-3 iterations. '
+        'types (second type grouped or not), 2-3 groups, 2-3 iterations; '
+        'B-mixed: two orificed types of different hydraulic resistance '
+        '(2 rings P/D 1.25-1.35 vs 3-4 rings P/D 1.07-1.12) at interleaved '
+        'positions (5 layouts), either type hottest / listed first, and a '
+        'pressure-drop limit at 0.7-0.9 of the largest nominal pressure '
+        'drop so that it binds for one type; D3 evaluates every flow on '
+        'the table of the assembly\'s OWN type (generator id->type map), '
+        'not on the (id, type) table kept by the code. '
         'A case is non-trivial when it produced >= 1 accepted grouping with '
         '>= 2 groups and fewer groups than assemblies (group kinds) or >= 2 '
         'checked distribute calls incl. one with previous results (hist, '
@@ -86,7 +93,8 @@ RULE = ('A-group: power lists of 1-30 (quick) / 1-48 (thorough) assemblies '
 DECIDING = ['G1_partition', 'G2_group_count', 'G3_order',
             'D1_same_flow_in_group', 'D2_total_flow_first_iter',
             'D2_total_flow_later_iter', 'D3_dp_limit_respected',
-            'R1_regroup_keeps_partition']
+            'R1_regroup_keeps_partition', 'A1_applied_flow_is_distributed',
+            'e2emix_runs_with_binding_limit']
 CASE_TIMEOUT = {'quick': 240, 'thorough': 900}
 BUDGET = {'quick': 600, 'thorough': 3000}
 EXHAUSTIVE = {'quick': False, 'thorough': False}   # only the A-enum sub-space
@@ -1329,7 +1337,7 @@ def cases(tier, seed):
     for i in range(8 if q else 240):
         out.append({'name': 'e2e-%d' % i, 'kind': 'e2e',
                     'seed': [seed, 3, i]})
-    for i in range(6 if q else 96):
+    for i in range(8 if q else 96):
         out.append({'name': 'e2emix-%d' % i, 'kind': 'e2emix',
                     'seed': [seed, 5, i]})
     # long cases first so the pool drains evenly
